@@ -221,9 +221,22 @@ func (c *FnCtx) diverged(st *State) bool {
 	return false
 }
 
+// nilTo: the untyped nil assigned to a slice/string-sorted location is the empty sequence
+func (c *FnCtx) nilTo(v *Val, t types.Type) *Val {
+	if v != nil && v.S == SInt && v.T == "0" && t != nil {
+		if ns := c.sortOf(t); ns == SStr || isSeq(ns) {
+			return c.zeroVal(t)
+		}
+	}
+	return v
+}
+
 func (c *FnCtx) declare(st *State, id *ast.Ident, v *Val) {
 	if id.Name == "_" || v == nil {
 		return
+	}
+	if o := c.info.Defs[id]; o != nil {
+		v = c.nilTo(v, o.Type())
 	}
 	obj := c.info.Defs[id]
 	if obj == nil {
@@ -345,6 +358,7 @@ func (c *FnCtx) assignTo(st *State, l ast.Expr, v *Val) {
 			c.assumeNote("writes to package-level variables are ignored")
 			return
 		}
+		v = c.nilTo(v, obj.Type())
 		if cur, ok := st.vars[obj]; ok && cur.S == SNone && cur.Box != "" {
 			owner, path := splitOwner(cur.T)
 			c.storeStruct(st, cur.Box, owner, path, cur.Typ, v)
@@ -708,7 +722,7 @@ func (c *FnCtx) execReturn(st *State, x *ast.ReturnStmt) []Exit {
 	}
 	for i, o := range fr.results {
 		if i < len(vals) {
-			v := vals[i]
+			v := c.nilTo(vals[i], o.Type())
 			nv := &Val{T: v.T, S: v.S, Typ: o.Type(), Fields: v.Fields, Box: v.Box, Fn: v.Fn, FnObj: v.FnObj, Recv: v.Recv}
 			if ns := c.sortOf(o.Type()); ns != v.S && ns != SNone && v.S != SNone {
 				nv = c.coerce(nv, ns)
